@@ -23,3 +23,28 @@ Theorem C17_output_is_items : forall d ts,
                   Forall2 (fun item c => exists e, item = inst e (skeleton_of (c_kind c) (c_fallible c))) items (impl_contexts d).
 Proof. exact output_is_items. Qed.
 Print Assumptions C17_output_is_items.
+
+(* the assignment-style bodies consist of statements (Lemmas/Statements.v): when a bare #[parent] forces `let mut obj = ..; ..; obj`
+   every own-field line and every #[ghosts] entry is `obj.<place> = <value>;`, and in an into_existing body `other.<place> = <value>;`
+   - never a literal fragment `name: value,` (the repaired findings F-17d and F-17e) *)
+From O2o.Model Require Import Expand.
+From O2o.Lemmas Require Import Statements.
+
+Theorem C17_post_init_lines_are_statements : forall f c hint idx ts,
+    is_intoish (c_kind c) = true -> c_post_init c = true -> fv_has_parent f = false ->
+    render_struct_line f c hint idx None = Ok ts -> statement_on "obj" ts.
+Proof. exact lines_are_statements_post_init. Qed.
+Print Assumptions C17_post_init_lines_are_statements.
+
+Theorem C17_existing_lines_are_statements : forall f c hint idx ts,
+    is_into_existing (c_kind c) = true -> fv_has_parent f = false ->
+    render_struct_line f c hint idx None = Ok ts -> statement_on "other" ts.
+Proof. exact lines_are_statements_existing. Qed.
+Print Assumptions C17_existing_lines_are_statements.
+
+Theorem C17_ghost_lines_are_statements : forall g c ts,
+    render_ghost_line g c = Ok ts ->
+    (is_intoish (c_kind c) = true -> c_post_init c = true -> statement_on "obj" ts) /\
+    (is_into_existing (c_kind c) = true -> statement_on "other" ts).
+Proof. exact ghost_lines_are_statements. Qed.
+Print Assumptions C17_ghost_lines_are_statements.
